@@ -16,22 +16,26 @@ from ..source import AnalysisError
 CR = "pandapipes.create"
 
 EXPLANATION = (
-    "All element-creating functions of pandapipes.create are enumerated from the source (functions that call "
-    "_set_entries / _set_multiple_entries). (R16.1) in the statement CFG of each, calls are classified as validators "
-    "(_check_*, _get_*index_with_check, _check_std_type, _auto_ext_grid_type(s), check_pressure_controllability, "
-    "explicit raise) or row writers (_set_entries, _set_multiple_entries, geodata stores, create_pump_std_type); no "
-    "validator or raise may be reachable after a row writer, so a raising call leaves the tables unchanged "
-    "(add_new_component only registers an empty table and is deliberately not counted as a write). (R16.2) every "
-    "parameter written to a junction-, pipe- or std-type-typed column must also be an argument of a validator in the "
-    "same function, and on every path to the row writer of a std_type column the name was checked or registered. "
-    "(R16.3) the set of written columns equals the component's get_component_input columns. (R16.4) for each "
-    "single/bulk pair and each std-type/parameter pair: equal defaults of corresponding parameters, equal written "
-    "column sets, corresponding validators. (R16.5) `:type x: ..., default V` in the docstring equals the signature "
-    "default. (R16.7) in the bulk writer a pandas Series argument is aligned by label only if all of its labels are labels of the new rows, "
-    "otherwise its values are used by position (as a list would be). (R16.6) a create call changes the addressed table(s) only: with the std-type and component-toolbox "
-    "helpers inlined (copies kept as fresh objects), no store and no mutating method call of a create function targets "
-    "an object whose possible origins (through element access, views, conditionals and .get) include net.std_types, "
-    "net.fluid, net.user_pf_options or net.component_list. Not decided: dtype preservation and index uniqueness at run time (pandapower helpers are trusted).")
+    'All element-creating functions of pandapipes.create are enumerated from the source (functions that call _set_entries'
+    ' / _set_multiple_entries). (R16.1) in the statement CFG of each, calls are classified as validators (_check_*, '
+    '_get_*index_with_check, _check_std_type, _auto_ext_grid_type(s), check_pressure_controllability, explicit raise) or '
+    'row writers (_set_entries, _set_multiple_entries, geodata stores, create_pump_std_type); no validator or raise may '
+    'be reachable after a row writer, so a raising call leaves the tables unchanged (add_new_component only registers an '
+    'empty table and is deliberately not counted as a write). (R16.2) every parameter written to a junction-, pipe- or '
+    'std-type-typed column must also be an argument of a validator in the same function, and on every path to the row '
+    'writer of a std_type column the name was checked or registered. (R16.3) the set of written columns equals the '
+    "component's get_component_input columns. (R16.4) for each single/bulk pair and each std-type/parameter pair: equal "
+    'defaults of corresponding parameters, equal written column sets, corresponding validators. (R16.5) `:type x: ..., '
+    'default V` in the docstring equals the signature default. (R16.7) in the bulk writer a pandas Series argument is '
+    'aligned by label only if all of its labels are labels of the new rows, otherwise its values are used by position (as'
+    ' a list would be). (R16.6) a create call changes the addressed table(s) only: with the std-type and component-'
+    'toolbox helpers inlined (copies kept as fresh objects), no store and no mutating method call of a create function '
+    'targets an object whose possible origins (through element access, views, conditionals and .get) include '
+    'net.std_types, net.fluid, net.user_pf_options or net.component_list. (R16.8) inside a loop of a bulk create function'
+    " nothing consumes a fixed key from a mapping that outlives the loop (kwargs.pop('k'), del kwargs['k'], directly or "
+    'inside a helper whose summary says so; a fresh copy handed to the helper is fine): the first pass would take the '
+    "caller's option and all later elements would be created without it, so that bulk creation differs from one-by-one "
+    'creation. Not decided: dtype preservation and index uniqueness at run time (pandapower helpers are trusted).')
 ASSUMPTIONS = ["pandapower's _get_index_with_check / _check_element / _check_branch_element raise on duplicate indices and unknown junctions",
                "add_new_component only adds an empty table (schema registration)"]
 TECHNIQUE = "CFG reachability with validator/writer classification, def-use of parameters into reference columns, sibling table agreement, docstring/signature agreement"
@@ -482,4 +486,110 @@ def r16_7(run):
     run.floor(1)
 
 
-RULES = [("R16.1", r16_1), ("R16.2", r16_2), ("R16.3", r16_3), ("R16.4", r16_4), ("R16.5", r16_5), ("R16.6", r16_6), ("R16.7", r16_7)]
+CONSUMING = {"pop", "popitem", "clear", "remove"}
+
+
+def _consumed_keys(ix):
+    """qualname -> {parameter: {constant keys the function removes from the mapping bound to it}} (directly or through callees)"""
+    fns = [f for f in ix.all_functions()]
+    summ = {}
+    for f in fns:
+        params = set(f.params())
+        a = f.raw_node.args
+        if a.kwarg is not None:
+            params.add(a.kwarg.arg)
+        d = {}
+        for n in ast.walk(f.raw_node):
+            if isinstance(n, ast.Call) and isinstance(n.func, ast.Attribute) and n.func.attr in CONSUMING \
+                    and isinstance(n.func.value, ast.Name) and n.func.value.id in params:
+                k = const_str(n.args[0]) if n.args else None
+                d.setdefault(n.func.value.id, set()).add(k if k is not None else "*")
+            elif isinstance(n, ast.Delete):
+                for t in n.targets:
+                    if isinstance(t, ast.Subscript) and isinstance(t.value, ast.Name) and t.value.id in params:
+                        k = const_str(t.slice)
+                        d.setdefault(t.value.id, set()).add(k if k is not None else "*")
+        summ[f.qualname] = d
+    changed = True
+    while changed:
+        changed = False
+        for f in fns:
+            params = set(f.params()) | ({f.raw_node.args.kwarg.arg} if f.raw_node.args.kwarg else set())
+            for n in ast.walk(f.raw_node):
+                if not isinstance(n, ast.Call):
+                    continue
+                for g, bound in _bound_names(ix, f, n):
+                    for gp, keys in summ.get(g.qualname, {}).items():
+                        nm = bound.get(gp)
+                        if nm in params and not keys <= summ[f.qualname].get(nm, set()):
+                            summ[f.qualname].setdefault(nm, set()).update(keys)
+                            changed = True
+    return summ
+
+
+def _bound_names(ix, f, call):
+    """[(callee, {callee parameter: caller name handed over as it is})] -- only plain names are objects shared with the caller"""
+    out = []
+    try:
+        targets = ix.resolve_call(f, call)
+    except Exception:  # noqa
+        targets = []
+    for g in targets:
+        gp = g.params()
+        skip = 1 if (g.cls is not None and gp and gp[0] in ("cls", "self")) else 0
+        bound = {}
+        for i, a in enumerate(call.args):
+            if isinstance(a, ast.Name) and i + skip < len(gp):
+                bound[gp[i + skip]] = a.id
+        for k in call.keywords:
+            if k.arg and isinstance(k.value, ast.Name):
+                bound[k.arg] = k.value.id
+        out.append((g, bound))
+    return out
+
+
+def r16_8(run):
+    """bulk creation equals one-by-one creation also for options handed over as keyword dictionary: inside a loop over the
+    elements (std types, rows) of a bulk create function nothing *consumes* a fixed key from a mapping that outlives the loop
+    (kwargs.pop('k') directly or inside a helper): the first pass would take the option and every later element would be created
+    without it"""
+    ix = run.index
+    summ = _consumed_keys(ix)
+    n_loops = 0
+    for f in create_functions(ix):
+        loops = [n for n in ast.walk(f.raw_node) if isinstance(n, (ast.For, ast.While))]
+        if loops:
+            run.analysed(f)
+        for lp in loops:
+            n_loops += 1
+            bound_inside = {t.id for st in ast.walk(lp) for t in ast.walk(st) if isinstance(t, ast.Name) and isinstance(t.ctx, ast.Store)}
+            bad = []
+            for st in lp.body:
+                for n in ast.walk(st):
+                    if isinstance(n, ast.Call) and isinstance(n.func, ast.Attribute) and n.func.attr in CONSUMING \
+                            and isinstance(n.func.value, ast.Name) and n.func.value.id not in bound_inside:
+                        k = const_str(n.args[0]) if n.args else "*"
+                        if k is not None:       # a key computed from the loop variable is a different key in every pass
+                            bad.append((n, "%s.%s(%r)" % (n.func.value.id, n.func.attr, k)))
+                    elif isinstance(n, ast.Delete):
+                        for t in n.targets:
+                            if isinstance(t, ast.Subscript) and isinstance(t.value, ast.Name) and t.value.id not in bound_inside \
+                                    and const_str(t.slice) is not None:
+                                bad.append((n, "del %s[%r]" % (t.value.id, const_str(t.slice))))
+                    elif isinstance(n, ast.Call):
+                        for g, bound in _bound_names(ix, f, n):
+                            for gp, keys in summ.get(g.qualname, {}).items():
+                                nm = bound.get(gp)
+                                if nm is not None and nm not in bound_inside:
+                                    bad.append((n, "%s(%s) removes %s from %s" % (g.name, nm, "/".join(sorted(repr(k) for k in keys)), nm)))
+            # a loop that is left right after the consuming statement runs it once
+            leaves = any(isinstance(x, (ast.Break, ast.Return)) for st in lp.body for x in ast.walk(st))
+            what = U(lp.target) + " in " + U(lp.iter) if isinstance(lp, ast.For) else U(lp.test)
+            run.ob("%s|loop|%s|passes-independent" % (f.name, what[:40]), not bad or leaves,
+                   "no pass of the loop `%s` of %s consumes an option from a mapping that later passes read" % (what[:60], f.name),
+                   run.where(f, bad[0][0] if bad else lp), detail="; ".join(sorted({b for _, b in bad}))[:300] if bad else None)
+    run.stat("loops_in_create_functions", n_loops)
+    run.floor(1)
+
+
+RULES = [("R16.1", r16_1), ("R16.2", r16_2), ("R16.3", r16_3), ("R16.4", r16_4), ("R16.5", r16_5), ("R16.6", r16_6), ("R16.7", r16_7), ("R16.8", r16_8)]
